@@ -106,15 +106,19 @@ Proof. repeat split; vm_compute; reflexivity. Qed.
 
 (* --- determinism: without an explicit nonce the signature is the normalised textbook signature at the RFC 6979
        nonce of (d, SHA256 (hex text of the digest)): a function of key and message only --- *)
-Theorem nonce_is_rfc6979 : forall d msg ht, 0 <= ht < 256 ->
+Theorem nonce_is_rfc6979 : forall d msg ht, 1 <= d < secp_n -> 0 <= ht < 256 ->
   lib_sign d msg None ht =
   with_der ht (spec_sign d (lib_z (lib_digest msg)) (rfc6979_nonce d (sha256 (hex_ascii (lib_digest msg))))).
 Proof. exact lib_sign_deterministic. Qed.
 
-Theorem explicit_nonce_is_used : forall d msg k ht, 0 <= ht < 256 -> k <> 0 ->
+Theorem explicit_nonce_is_used : forall d msg k ht, 1 <= d < secp_n -> 0 <= ht < 256 -> k <> 0 ->
   lib_sign d msg (Some k) ht =
   with_der ht (spec_sign d (lib_z (lib_digest msg)) k).
 Proof. exact lib_sign_explicit. Qed.
+
+(* a private key outside [1, n-1] never signs: Key() refuses it (C04 fix 39fdc6f) *)
+Theorem lib_sign_refuses_bad_key : forall d msg k ht, ~ (1 <= d < secp_n) -> lib_sign d msg k ht = None.
+Proof. exact (lib_sign_key_range lib_low_s). Qed.
 
 Example nonce_witness :
   lib_nonce 1 (be_bytes 32 1) = rfc6979_nonce 1 (sha256 (hex_ascii (be_bytes 32 1))) /\
@@ -126,10 +130,26 @@ Proof. exact w5_nonce. Qed.
 Example nonce_hex_case_refuted : lib_nonce 1 w7_dg <> lib_nonce_upper 1 w7_dg.
 Proof. exact w7_hex_case. Qed.
 
-(* --- the verifier is exact: for every digest, every byte string offered as a signature and every public-key
-       point, outside the three recorded classes, verify = standard ECDSA on the strictly decoded input;
-       None = refused with an exception, Some b = the boolean returned --- *)
-Theorem lib_verify_exact : forall dg sig Q,
+(* --- the verifier is exact: for every digest, every byte string offered as a signature and every byte string
+       offered as a public key in SEC form (Key(bytes), strict — the default), outside the two recorded signature
+       classes, verify = standard ECDSA on the strictly decoded signature and the SEC 1 decoded key;
+       None = refused with an exception, Some b = the boolean returned.  No guard on the key. --- *)
+Theorem lib_verify_exact : forall dg sig pk,
+  dg <> [] -> der64 sig = false -> lax_der sig = false ->
+  lib_verify_key dg sig pk = spec_verify_key (lib_z dg) sig pk.
+Proof. exact lib_verify_key_exact. Qed.
+
+(* the key reader alone: Key(bytes) and SEC 1 2.3.4 refuse together, or accept together — the library's point
+   passes the Signature.public_key check and reduces to the standard point, which is a valid public key *)
+Theorem lib_pub_point_exact : forall pk,
+  (lib_pub_point pk = None /\ parse_point pk = None) \/
+  (exists Ql Qs, lib_pub_point pk = Some Ql /\ parse_point pk = Some Qs /\
+                 lib_on_curve Ql = true /\ reduce_pt Ql = Some Qs /\ spec_pub_ok Qs = true).
+Proof. exact lib_pub_point_spec. Qed.
+
+(* the same one level down, for a public key handed over as a point / Key object: here the coordinates must be
+   reduced — unreduced ones reach Signature.verify only through Key(.., strict=False) since C04 fix 75f674d *)
+Theorem lib_verify_point_exact : forall dg sig Q,
   dg <> [] -> der64 sig = false -> lax_der sig = false -> coords_reduced Q = true ->
   lib_verify dg sig Q = spec_verify (lib_z dg) sig Q.
 Proof. exact Proofs.Ecdsa.lib_verify_exact. Qed.
@@ -168,12 +188,22 @@ Example lib_verify_lax_der_refuted :
   lib_verify w3_dg w3_lax w3_Q = Some true /\ spec_verify (lib_z w3_dg) w3_lax w3_Q = None.
 Proof. exact w3_lax_der_accepted. Qed.
 
-(* finding pubkey_coordinate_unreduced (C04 finding 14 seen from verify): x spelled x + p is accepted *)
-Example lib_verify_unreduced_key_refuted :
+(* why lib_verify_point_exact keeps its guard (C04 finding 14, repaired for strict keys by 75f674d): the point
+   (1 + p, y), obtainable only with Key(.., strict=False), is accepted *)
+Example lib_verify_point_unreduced_refuted :
   der64 w4_sig = false /\ lax_der w4_sig = false /\ coords_reduced w4_Q = false /\
   lib_verify w4_dg w4_sig w4_Q = Some true /\ spec_verify (lib_z w4_dg) w4_sig w4_Q = None /\
   spec_verify (lib_z w4_dg) w4_sig (1, w4_y) = Some true.
 Proof. exact w4_unreduced_key_accepted. Qed.
+
+(* ... and the same key as bytes 02 || (p + 1) is refused by the strict reader the public entry point uses,
+   while 02 || 1 verifies *)
+Example lib_verify_key_bytes_witness :
+  lib_pub_point w4_pk = None /\ parse_point w4_pk = None /\ lib_pub_point_lax w4_pk = Some w4_Q /\
+  lib_verify_key w4_dg w4_sig w4_pk = None /\ spec_verify_key (lib_z w4_dg) w4_sig w4_pk = None /\
+  lib_verify_key w4_dg w4_sig (x02 :: be_bytes 32 1) = Some true /\
+  spec_verify_key (lib_z w4_dg) w4_sig (x02 :: be_bytes 32 1) = Some true.
+Proof. exact w4_key_bytes_refused. Qed.
 
 Print Assumptions sign_verifies.
 Print Assumptions executable_is_generic.
@@ -186,5 +216,8 @@ Print Assumptions lib_sign_encoding.
 Print Assumptions lib_sign_parse_roundtrip.
 Print Assumptions nonce_is_rfc6979.
 Print Assumptions explicit_nonce_is_used.
+Print Assumptions lib_sign_refuses_bad_key.
 Print Assumptions lib_verify_exact.
+Print Assumptions lib_pub_point_exact.
+Print Assumptions lib_verify_point_exact.
 Print Assumptions lib_parse_exact.
